@@ -498,6 +498,9 @@ func (g *schemaGen) note() string {
 	if g.r.Intn(4) != 0 {
 		return ""
 	}
+	if g.r.Intn(4) == 0 {
+		return []string{"quoted \"word\"", "(parens) [brackets] a*b", "ünï cödé 日本語", "no\u00a0break", "100% & more; colon: x, dot.", "@ref-like 200 GET"}[g.r.Intn(6)]
+	}
 	return g.word() + " " + g.word()
 }
 
@@ -542,6 +545,9 @@ func (g *schemaGen) scalar(allowOptional bool) *S {
 			s.Rules = append(s.Rules, Rule{Name: "type", Val: []string{"any", "string"}[g.r.Intn(2)]})
 		case 10:
 			s.Rules = append(s.Rules, Rule{Name: "enum", Raw: []string{fmt.Sprintf("%q", s.Lit), fmt.Sprint(g.r.Intn(9)), "null", "true", "2.5"}[:2+g.r.Intn(4)]})
+		case 14:
+			// characters that a JSON text writes with an escape, and text outside ASCII
+			s.Lit = []string{"say \"hi\"", "back\\slash", "two\nlines", "tab\there", "ünï cödé", "日本語", "emoji 😀", "slash / and \\/"}[g.r.Intn(8)]
 		case 12, 13:
 			// text that looks like something else: a dot, a number, a keyword, a reference
 			s.Lit = []string{g.word() + "." + g.word(), "./" + g.word(), "1.5", "12", "true", "null", "@" + g.word(), "v1.2", "a.b.c", "GET /x", "{}", "[1]"}[g.r.Intn(12)]
@@ -551,6 +557,10 @@ func (g *schemaGen) scalar(allowOptional bool) *S {
 	case 2, 3:
 		n := g.r.Intn(100)
 		s.K, s.Lit = "int", fmt.Sprint(n)
+		if g.r.Intn(12) == 0 {
+			s.Lit = []string{"-7", "0", "-0", "12345678901234567890", "-98765432109876543210"}[g.r.Intn(5)]
+			break
+		}
 		switch g.r.Intn(14) {
 		case 0:
 			s.Rules = append(s.Rules, Rule{Name: "min", Val: fmt.Sprint(n - g.r.Intn(5))})
@@ -591,6 +601,10 @@ func (g *schemaGen) scalar(allowOptional bool) *S {
 		}
 	case 4:
 		s.K, s.Lit = "float", fmt.Sprintf("%d.%d", g.r.Intn(50), 1+g.r.Intn(9))
+		if g.r.Intn(8) == 0 {
+			s.Lit = []string{"-0.5", "0.0", "3.140", "-12.000001", "1234567890.0987654321"}[g.r.Intn(5)]
+			break
+		}
 		switch g.r.Intn(6) {
 		case 0:
 			s.Rules = append(s.Rules, Rule{Name: "precision", Val: fmt.Sprint(1 + g.r.Intn(3))})
@@ -647,6 +661,10 @@ func (g *schemaGen) object(depth int, allowAllOf bool) *S {
 	n := 1 + g.r.Intn(4)
 	for i := 0; i < n; i++ {
 		key := fmt.Sprintf("%s%d", g.word()[:2], i)
+		if g.r.Intn(10) == 0 {
+			// keys that need no escape in a JSON text but are not identifiers
+			key = []string{"a b", "ключ", "k-1", "k.2", "UPPER", "9lives", "@quoted-not-a-shortcut", "x/y", "émoji😀"}[g.r.Intn(9)]
+		}
 		if used[key] {
 			continue
 		}
